@@ -12,6 +12,7 @@ pub mod c11;
 pub mod c12;
 pub mod c15;
 pub mod c16;
+pub mod c17;
 pub mod c18;
 pub mod dp;
 pub mod rules;
@@ -38,6 +39,7 @@ pub fn lookup(id: &str) -> Option<(RunFn, ReplayFn)> {
         "C14" => Some((sqlprops::run_c14, sqlprops::replay_c14)),
         "C15" => Some((c15::run, c15::replay)),
         "C16" => Some((c16::run, c16::replay)),
+        "C17" => Some((c17::run, c17::replay)),
         "C18" => Some((c18::run, c18::replay)),
         _ => None,
     }
